@@ -214,7 +214,7 @@ def int_write_small_exhaustive(rng, fs, tier="quick"):
             lo, hi = int_range(ty)
             for v in range(lo, hi + 1):
                 ops.append("wi %s %s %d -" % (ty, f, v))
-    rads16 = rads if tier != "quick" else sorted(set(rads) & {2, 3, 10, 15, 16, 17, 36})
+    rads16 = rads if tier != "quick" else sorted(set(rads) & {3, 10, 16, 36})
     for r in rads16:
         f = fmt_hex(pack(r))
         for ty in ("u16", "i16"):
